@@ -3,9 +3,13 @@ use core::arch::aarch64::*;
 
 #[inline]
 pub fn match_header_name_vectored(bytes: &mut Bytes) {
+    #[cfg(httparse_verif)]
+    crate::_verif::mark(crate::_verif::B_NEON_NAME);
     while bytes.as_ref().len() >= 16 {
         // SAFETY: ensured that there are at least 16 bytes remaining 
         unsafe {
+            #[cfg(httparse_verif)]
+            crate::_verif::bump(&crate::_verif::BLOCKS, 1);
             let advance = match_header_name_char_16_neon(bytes.as_ref().as_ptr());
             bytes.advance(advance);
 
@@ -19,9 +23,13 @@ pub fn match_header_name_vectored(bytes: &mut Bytes) {
 
 #[inline]
 pub fn match_header_value_vectored(bytes: &mut Bytes) {
+    #[cfg(httparse_verif)]
+    crate::_verif::mark(crate::_verif::B_NEON_VALUE);
     while bytes.as_ref().len() >= 16 {
         // SAFETY: ensured that there are at least 16 bytes remaining 
         unsafe {
+            #[cfg(httparse_verif)]
+            crate::_verif::bump(&crate::_verif::BLOCKS, 1);
             let advance = match_header_value_char_16_neon(bytes.as_ref().as_ptr());
             bytes.advance(advance);
 
@@ -35,9 +43,13 @@ pub fn match_header_value_vectored(bytes: &mut Bytes) {
 
 #[inline]
 pub fn match_uri_vectored(bytes: &mut Bytes) {
+    #[cfg(httparse_verif)]
+    crate::_verif::mark(crate::_verif::B_NEON_URI);
     while bytes.as_ref().len() >= 16 {
         // SAFETY: ensured that there are at least 16 bytes remaining 
         unsafe {
+            #[cfg(httparse_verif)]
+            crate::_verif::bump(&crate::_verif::BLOCKS, 1);
             let advance = match_url_char_16_neon(bytes.as_ref().as_ptr());
             bytes.advance(advance);
 
